@@ -18,7 +18,7 @@ func init() {
 		Run:     runC04,
 		Explanation: "Static decision of the compaction structure: (1) ABS-liveness: the truth table of 'index entry is live' over {offset zero/non-zero} x {size < -1, = -1, = 0, > 0} is computed (by cutting CFG edges under each abstract point) for the reader and for every site that filters or replays index entries during compaction and reload; all must classify like the reader, and loaders must reach a delete action on non-live points; " +
 			"(2) SIB-expiry: the TTL-expiry test of the reader and of the two compaction filters consult the same timestamp field and TTL source; (3) ORDER-commit: the compacted files are renamed over the volume only on the success edge of makeupDiff, the index offset / revision snapshot is taken before the copy starts, makeupDiff aborts on a revision mismatch; " +
-			"(4) CODEC-idx-literal: literal slice bounds on an index entry in makeupDiff equal the entry's field ranges in both offset-width builds. Byte-identical contents and interleavings of writes with the copy are not decided.",
+			"(4) CODEC-idx-literal: literal slice bounds on an index entry in makeupDiff equal the entry's field ranges in both offset-width builds. Byte-identical contents and interleavings of writes with the copy are not decided. Also decided: the leveldb index derived from the old index file is removed before the reload that follows the swap; the replay of entries appended during compaction lets the newest change of a key win (walk direction and the seen-key guard are decided together).",
 		Assumptions: []string{"the reference classification is the reader's (readNeedle): what a read would still return"},
 		Trusted:     baseTrusted,
 	})
